@@ -636,10 +636,15 @@ class DocGen:
         kind = self.rng.choice(["ulist", "olist"])
         items = []
         for _ in range(self.rng.randint(1, 3)):
-            blocks = [("para", self.inlines(1, 6))]
+            blocks: List[Any] = [("para", self.inlines(1, 6))]
             if any(i[0] not in ("w", "sp", "p") or (i[0] == "p" and i[1][0] not in ("w", "sp")) for i in blocks[0][1]):
                 self.nested_markup = True
-            if depth < 1 and self.rng.random() < 0.3:
+            if self.rng.random() < 0.22:
+                # first paragraph on two lines ending with `::`, a literal block, then another paragraph of the same item
+                blocks = [("litfirst", [("w", self.rng.choice(BASE).capitalize())] + self.words(1, 3), self.words(1, 3),
+                           self.block_lines()), ("para", self.inlines(1, 5))]
+                self.nested_markup = True
+            elif depth < 1 and self.rng.random() < 0.3:
                 blocks.append(self.lst(depth + 1))
             elif self.rng.random() < 0.15:
                 blocks.append(("para", self.inlines(1, 5)))
@@ -765,6 +770,13 @@ class DocGen:
         pool = {"function": kinds_fn, "class": kinds_cls, "module": kinds_mod, "property": kinds_prop,
                 "variable": kinds_var}[owner]
         allow_dup = self.rng.random() < 0.25          # the same parameter / keyword documented twice
+        if owner == "function" and self.rng.random() < 0.12:
+            # keywords that have a type but no description, and nothing else described in the signature
+            res = [{"kind": "keyword", "arg": a, "type": self.rng.choice(["float", "int", "str"]), "body": [],
+                    "type_first": self.rng.random() < 0.5} for a in self.rng.sample(["timeout", "retries"], self.rng.randint(1, 2))]
+            if self.rng.random() < 0.4:
+                res.append({"kind": "note", "arg": None, "type": None, "body": self.inlines(1, 4), "type_first": False})
+            return res
         used_args, singles = set(), set()
         for _ in range(n):
             k = self.rng.choice(pool)
@@ -800,7 +812,15 @@ class DocGen:
             body = self.inlines(1, 6)
             if any(i[0] in ("m", "link", "url") for i in body):
                 self.nested_markup = True
-            res.append({"kind": k, "arg": arg, "type": typ, "body": body, "type_first": self.rng.random() < 0.5})
+            fld = {"kind": k, "arg": arg, "type": typ, "body": body, "type_first": self.rng.random() < 0.5}
+            if self.rng.random() < 0.3:
+                # descriptions that start with punctuation a separator-stripper could eat
+                fld["lead"] = self.rng.choice(["-1", "--verbose", ":-)", "::", "-x", ":", "-0.5"])
+            if k in ("note", "see", "todo", "custom", "return", "raise") and self.rng.random() < 0.15:
+                # the field's first paragraph wraps, ends with `::`, a literal block and one more paragraph follow
+                fld["literal"] = self.block_lines()
+                fld["after"] = self.inlines(1, 4)
+            res.append(fld)
         if allow_dup and owner == "function":
             # the same keyword (and sometimes the same parameter) documented twice
             for k, arg in [("keyword", "opt")] + ([("param", "a")] if self.rng.random() < 0.5 else []):
@@ -820,7 +840,9 @@ class DocGen:
         elif r < 0.06:
             body[0][1].append(("w", "10\u00a0EUR"))    # a no-break space in the text
         doc = {"owner": owner, "body": body, "fields": self.fields(owner),
-               "field_perm": self.rng.randrange(1 << 30) if self.rng.random() < 0.4 else None}
+               "field_perm": self.rng.randrange(1 << 30) if self.rng.random() < 0.4 else None,
+               # reST consolidated fields (`:Parameters:` + bullet or definition list) instead of one field per entry
+               "consolidated": self.rng.choice([None, None, "bullet:", "bullet-", "deflist"])}
         if owner == "variable":
             doc["var_level"] = self.rng.choice(["module", "class", "instance"])
             doc["var_type"] = self.rng.choice(["int", "str", None])
@@ -848,6 +870,8 @@ class Ser:
         self.field_perm: Optional[int] = None
         self.var_type: Optional[str] = None
         self.return_tag: Optional[str] = None
+        self.consolidated: Optional[str] = None
+        self.flags: set = set()
         self.attr_owner = False      # google/numpy read "type: description" on the first line of an attribute docstring
 
     # ---- inline: returns (source, visible)
@@ -988,6 +1012,26 @@ class Ser:
                 bullet = "- " if t == "ulist" else "%d. " % (n + 1)
                 cind = li + len(bullet)
                 first = item[0]
+                if first[0] == "litfirst":
+                    if nap:
+                        first = ("para", first[1] + first[2])
+                    else:
+                        lines.extend(self.wrap(first[1], " " * li + bullet, " " * cind, out.words, width=300))
+                        w2: List[str] = []
+                        lines.extend(self.wrap([("w", "then")] + first[2] + [("w", "shown")], " " * cind, " " * cind, w2, width=300, suffix="::"))
+                        out.words.extend(w2[:-1] + ["shown:"])
+                        lines.append("")
+                        body = [l.rstrip() if not self.ep else l for l in first[3]]
+                        lines.extend((" " * (cind + 4) + l) if l else "" for l in body)
+                        lines.append("")
+                        out.blocks.append(("literal", "\n".join(body)))
+                        out.words.extend("\n".join(body).split())
+                        out.flags.add("literal")
+                        out.flags.add("item-first-paragraph-wraps-then-literal")
+                        self.last = "para"
+                        for sub in item[1:]:
+                            self.block(sub, cind, out, lines)
+                        continue
                 lines.extend(self.wrap(first[1], " " * li + bullet, " " * cind, out.words))
                 if not self.ep or len(item) > 1:
                     lines.append("")
@@ -1070,6 +1114,8 @@ class Ser:
 
     # ---- fields
     TAGS = {"return": "return", "yield": "yield", "raise": "raise", "warn": "warn", "see": "see", "custom": "customfield"}
+    CONSOLIDATED = {"param": "Parameters", "keyword": "Keywords", "raise": "Exceptions", "ivar": "IVariables",
+                    "cvar": "CVariables", "var": "Variables"}
 
     def fields(self, fields, owner: str, lines: List[str]) -> List[Dict[str, Any]]:
         exp: List[Dict[str, Any]] = []
@@ -1080,6 +1126,7 @@ class Ser:
                 head = tag + (" " + arg if arg else "")
                 return ("@%s: " % head) if self.ep else (":%s: " % head)
             entries: List[List[str]] = []
+            consolidated: Dict[str, List[Any]] = {}
             if self.var_type:
                 entries.append([mk("type", None) + self.var_type])
             for f in fields:
@@ -1087,7 +1134,29 @@ class Ser:
                 if f["kind"] == "return" and self.return_tag:
                     tag = self.return_tag
                 w: List[str] = []
-                desc = self.wrap(f["body"], mk(tag, f["arg"]), "    ", w)
+                body = ([("w", f["lead"])] if (f.get("lead") and not f.get("literal")) else []) + list(f["body"])
+                cons = self.consolidated if (not self.ep and f["kind"] in self.CONSOLIDATED and not f.get("literal")) else None
+                if cons:
+                    # one entry of a consolidated field, written below
+                    consolidated.setdefault(self.CONSOLIDATED[f["kind"]], []).append((f["arg"], body, w))
+                    desc = []
+                elif not body:
+                    desc = [mk(tag, f["arg"]).rstrip()]
+                elif f.get("literal"):
+                    half = max(1, len(body) // 2)
+                    desc = self.wrap(body[:half], mk(tag, f["arg"]), "    ", w, width=300)
+                    w2: List[str] = []
+                    desc += self.wrap([("w", "then")] + body[half:] + [("w", "shown")], "    ", "    ", w2, width=300, suffix="::")
+                    w.extend(w2[:-1] + ["shown:"])
+                    lit = [l.rstrip() if not self.ep else l for l in f["literal"]]
+                    desc += [""] + [(" " * 8 + l) if l else "" for l in lit] + [""]
+                    w.extend("\n".join(lit).split())
+                    desc += self.wrap(f["after"], "    ", "    ", w) + [""]
+                    self.flags.add("field-first-paragraph-wraps-then-literal")
+                else:
+                    desc = self.wrap(body, mk(tag, f["arg"]), "    ", w)
+                if f.get("lead") and not f.get("literal"):
+                    self.flags.add("field-description-starts-with-punctuation")
                 e = dict(kind=f["kind"], tag=tag, arg=f["arg"], words=w, type=None)
                 if f["type"]:
                     ttag = {"return": "rtype", "yield": "ytype"}.get(f["kind"], "type")
@@ -1098,6 +1167,21 @@ class Ser:
                 else:
                     entries.append(desc)
                 exp.append(e)
+            for name, items in consolidated.items():
+                block = [":%s:" % name]
+                for arg, body, w in items:
+                    if self.consolidated == "deflist" and name not in ("Exceptions",):
+                        block.append("    `%s`" % arg)
+                        block.extend(self.wrap(body, "        ", "        ", w) if body else ["        \\"])
+                    else:
+                        sep = ": " if self.consolidated != "bullet-" else " - "
+                        if body:
+                            block.extend(self.wrap(body, "    - `%s`%s" % (arg, sep), "      ", w))
+                        else:
+                            block.append("    - `%s`" % arg)
+                entries.append(block)
+                self.flags.add("consolidated-field:" + str(self.consolidated))
+            entries = [en for en in entries if en]
             if self.field_perm is not None:
                 import random as _random
                 _random.Random(self.field_perm).shuffle(entries)    # the author chooses the order of the fields
@@ -1128,6 +1212,14 @@ class Ser:
             for f in fs:
                 w = []
                 e = dict(kind=f["kind"], tag=f["kind"], arg=f["arg"], words=w, type=f["type"], section=name)
+                if f.get("lead") and f["body"] and ":" not in f["lead"]:
+                    f = dict(f, body=[("w", f["lead"])] + list(f["body"]))
+                    self.flags.add("field-description-starts-with-punctuation")
+                if not f["body"]:
+                    # a keyword with a type and no description
+                    lines.append(("    %s (%s):" % (f["arg"], f["type"])) if g else ("%s : %s" % (f["arg"], f["type"])))
+                    exp.append(e)
+                    continue
                 if kind in ("note", "todo"):
                     lines.extend(self.wrap(f["body"], "    " if g else "", "    " if g else "", w, no_colon=True))
                 elif kind in ("return", "yield"):
@@ -1177,11 +1269,13 @@ class Ser:
         for b in doc["body"]:
             self.block(b, 0, out, lines)
         self.field_perm = doc.get("field_perm")
+        self.consolidated = doc.get("consolidated") if self.fmt == "restructuredtext" else None
         self.var_type = doc.get("var_type") if self.fmt in ("epytext", "restructuredtext") else None
         self.return_tag = doc.get("return_tag")
         fexp = self.fields(doc["fields"], doc["owner"], lines)
         while lines and lines[-1] == "":
             lines.pop()
+        out.flags |= self.flags
         return {"docstring": "\n".join(lines), "out": out, "fields": fexp, "var_type": self.var_type}
 
 
@@ -1435,7 +1529,7 @@ def oracle_document(ctx: Ctx, fmt: str, doc, ser, full: str, src: str, r) -> Non
                         altered = (h, desc)
                         continue
                     where = "table:" + h
-                    if f["type"] and k in ("param", "return", "yield"):
+                    if f["type"] and k in ("param", "return", "yield", "keyword"):
                         shown_type = name.split(":", 1)[1].strip() if (arg and ":" in name) else ("" if arg else name)
                         if owner_kind == "property" and k == "return" and shown_type != f["type"]:
                             # the property's type (`rtype` of the getter) is shown as the type of the attribute
